@@ -5,6 +5,7 @@ package main
 
 import (
 	"fmt"
+	"runtime"
 	"go/types"
 	"sort"
 	"strings"
@@ -103,6 +104,8 @@ type Engine struct {
 	nodeByName map[string]*Node
 	panicFrames []*frame
 	hashCount int
+	errLog []string
+	nodeCells map[*Node]*Cell
 	asn1Blobs map[int]asn1Sig
 	noKnown   bool
 }
@@ -213,7 +216,41 @@ func (e *Engine) branch(cond *Term) bool {
 	e.siblings = append(e.siblings, sib)
 	e.trace = append(e.trace, 0)
 	e.addPC(cond)
+	e.noteFork(cond)
 	return true
+}
+
+var forkStats = map[string]int{}
+var forkMu sync.Mutex
+var forkProfile = false
+
+func (e *Engine) noteFork(cond *Term) {
+	if !forkProfile {
+		return
+	}
+	where := "?"
+	if e.curInstr != nil {
+		where = fmt.Sprintf("%s @ %s", e.curInstr.Parent(), e.prog.Fset.Position(e.curInstr.Pos()))
+	}
+	// engine call site
+	pc := make([]uintptr, 6)
+	n := runtime.Callers(3, pc)
+	fr := runtime.CallersFrames(pc[:n])
+	var eng []string
+	for {
+		f, more := fr.Next()
+		eng = append(eng, strings.TrimPrefix(f.Function, "main.(*Engine)."))
+		if !more || len(eng) >= 3 {
+			break
+		}
+	}
+	key := where + " <" + strings.Join(eng, "<") + "> " + cond.str(4)
+	if len(key) > 300 {
+		key = key[:300]
+	}
+	forkMu.Lock()
+	forkStats[key]++
+	forkMu.Unlock()
 }
 
 // choose forks n ways unconditionally (shape choices).
@@ -446,6 +483,9 @@ func (e *Engine) reportViolation(label, kind string, extra []*Term) {
 	v.Values = e.extractModel(extra)
 	if e.curInstr != nil {
 		v.PathMsg = fmt.Sprintf("%s @ %s", e.curInstr.Parent(), e.prog.Fset.Position(e.curInstr.Pos()))
+	}
+	if len(e.errLog) > 0 {
+		v.PathMsg += " | recent errors: " + strings.Join(e.errLog, " ; ")
 	}
 	e.res.violations = append(e.res.violations, v)
 }
